@@ -163,7 +163,11 @@ func genEnv(r *Rng, g *gCmd, consistent bool, distinct bool, small bool) string 
 			if i := strings.LastIndex(typ, "."); i >= 0 {
 				typ = typ[i+1:]
 			}
-			tup := randTup(r, typ, format[f.Name], distinct)
+			fm, ok := format[f.Name]
+			if !ok && (typ == "SMB_STRING") {
+				fm = 1 + r.Intn(5) // Marshal does not set a format: any of the five may be in the field
+			}
+			tup := randTup(r, typ, fm, distinct)
 			if tup == "" {
 				return "" // a nested type this generator does not know yet
 			}
